@@ -144,9 +144,14 @@ StepRead(rs, line) ==
   ELSE IF ~AllActive(rs.cond) THEN rs
   ELSE ExecStep(rs, line)
 
-RECURSIVE ReadFrom(_, _, _)
-ReadFrom(rs, lines, i) == IF i > Len(lines) THEN rs ELSE ReadFrom(StepRead(rs, lines[i]), lines, i + 1)
-ReadLines(rs, lines) == ReadFrom(rs, lines, 1)
+(* Folds are written as balanced recursions (state threaded left to right, depth log n):   *)
+(* TLC's cost of a recursion grows with the square of its depth.                          *)
+RECURSIVE ReadRange(_, _, _, _)
+ReadRange(rs, lines, lo, hi) ==
+  IF lo > hi THEN rs
+  ELSE IF lo = hi THEN StepRead(rs, lines[lo])
+  ELSE LET mid == (lo + hi) \div 2 IN ReadRange(ReadRange(rs, lines, lo, mid), lines, mid + 1, hi)
+ReadLines(rs, lines) == ReadRange(rs, lines, 1, Len(lines))
 
 -----------------------------------------------------------------------------
 MaxDepth == 4
@@ -205,9 +210,13 @@ LayoutStep(ls, it, core, equs) ==
                               IF ls.cur = "code" \/ n < 0 THEN fail ELSE bump(n)
          [] OTHER -> ls1
 
-RECURSIVE LayoutFrom(_, _, _, _, _)
-LayoutFrom(ls, items, i, core, equs) ==
-  IF i > Len(items) THEN ls ELSE LayoutFrom(LayoutStep(ls, items[i], core, equs), items, i + 1, core, equs)
+RECURSIVE LayoutRange(_, _, _, _, _, _)
+LayoutRange(ls, items, lo, hi, core, equs) ==
+  IF lo > hi THEN ls
+  ELSE IF lo = hi THEN LayoutStep(ls, items[lo], core, equs)
+  ELSE LET mid == (lo + hi) \div 2 IN
+       LayoutRange(LayoutRange(ls, items, lo, mid, core, equs), items, mid + 1, hi, core, equs)
+LayoutFrom(ls, items, i, core, equs) == LayoutRange(ls, items, i, Len(items), core, equs)
 
 -----------------------------------------------------------------------------
 (* Emission: operands are evaluated with the symbols in force, encoded by  *)
@@ -282,9 +291,12 @@ EmitStep(es, it, p, cx) ==
                               ELSE [es EXCEPT !.defs = [x \in (DOMAIN @) \ {it.n} |-> @[x]]]
          [] OTHER -> es
 
-RECURSIVE EmitFrom(_, _, _, _, _)
-EmitFrom(es, items, pos, i, cx) ==
-  IF i > Len(items) THEN es ELSE EmitFrom(EmitStep(es, items[i], pos[i], cx), items, pos, i + 1, cx)
+RECURSIVE EmitRange(_, _, _, _, _, _)
+EmitRange(es, items, pos, lo, hi, cx) ==
+  IF lo > hi THEN es
+  ELSE IF lo = hi THEN EmitStep(es, items[lo], pos[lo], cx)
+  ELSE LET mid == (lo + hi) \div 2 IN EmitRange(EmitRange(es, items, pos, lo, mid, cx), items, pos, mid + 1, hi, cx)
+EmitFrom(es, items, pos, i, cx) == EmitRange(es, items, pos, i, Len(items), cx)
 
 -----------------------------------------------------------------------------
 (* A whole build of a single-file program.                                 *)
